@@ -80,35 +80,43 @@ func step(wd, cancelAfter time.Duration, okName string, fn func(ctx context.Cont
 	return res, true
 }
 
-func runDet(sc scen) result {
-	rng := rand.New(rand.NewSource(sc.seed))
-	mode := sc.mode
-	commitmode := "-"
-	if mode == "g" {
-		commitmode = []string{"s", "a"}[rng.Intn(2)]
-	}
-	n := rng.Intn(13)
+// detParams draws the parameters of a det scenario (a function of the sub-seed only, so
+// that the parent can print the arguments of a scenario whose worker died).
+func detParams(sc scen) (rng *rand.Rand, commitmode string, n, k, j, qcap int) {
+	rng = rand.New(rand.NewSource(sc.seed))
+	commitmode = commitModeOf(sc)
+	n = rng.Intn(13)
 	if rng.Intn(6) == 0 {
 		n = rr(rng, 13, 40)
 	}
-	qcap := n + rng.Intn(4)
+	qcap = n + rng.Intn(4)
 	if qcap == 0 {
 		qcap = 1
 	}
 	if rng.Intn(5) == 0 {
 		qcap = 0x40
 	}
-	k := 0
 	if n > 0 {
 		k = rng.Intn(n + 1)
-		if mode == "p" && k == 0 {
+		if sc.mode == "p" && k == 0 {
 			// without a FetchMessage the partition reader of a Reader without group never
 			// starts and the queue would stay empty
 			k = 1
 		}
 	}
-	j := rng.Intn(n - k + 3)
-	args := fmt.Sprintf("%s %s %x %x %x %x", mode, commitmode, n, k, j, qcap)
+	j = rng.Intn(n - k + 3)
+	return
+}
+
+func detArgs(sc scen) string {
+	_, cm, n, k, j, qcap := detParams(sc)
+	return fmt.Sprintf("%s %s %x %x %x %x", sc.mode, cm, n, k, j, qcap)
+}
+
+func runDet(sc scen) result {
+	rng, commitmode, n, k, j, qcap := detParams(sc)
+	mode := sc.mode
+	args := detArgs(sc)
 	ft := newFeats()
 	ft.add("det")
 	ft.add("mode=" + mode)
@@ -178,12 +186,22 @@ func runDet(sc scen) result {
 	return result{args, strings.Join(out, ","), ft.String()}
 }
 
+func cacParams(sc scen) (rng *rand.Rand, commitmode string, n, qcap int) {
+	rng = rand.New(rand.NewSource(sc.seed))
+	commitmode = commitModeOf(sc)
+	n = rr(rng, 0x10, 0x40)
+	qcap = rr(rng, 1, 8)
+	return
+}
+
+func cacArgs(sc scen) string {
+	_, cm, n, _ := cacParams(sc)
+	return fmt.Sprintf("%s %x", cm, n)
+}
+
 func runCac(sc scen) result {
-	rng := rand.New(rand.NewSource(sc.seed))
-	commitmode := []string{"s", "a"}[rng.Intn(2)]
-	n := rr(rng, 0x10, 0x40)
-	qcap := rr(rng, 1, 8)
-	args := fmt.Sprintf("%s %x", commitmode, n)
+	rng, commitmode, n, qcap := cacParams(sc)
+	args := cacArgs(sc)
 	ft := newFeats()
 	ft.add("cac")
 	ft.add("qcap=" + hx(qcap))
